@@ -378,6 +378,10 @@ class Program:
                 out.append(ast.unparse(b))
             else:
                 out.append(r)
+        # typing.Generic[...] among several bases is dropped by __mro_entries__ when another
+        # base is itself generic; it never carries repository methods, so drop it always.
+        if len(out) > 1:
+            out = [b for b in out if b != "typing.Generic"] or out
         return out
 
     def mro(self, ci: ClassInfo) -> List[Union[ClassInfo, str]]:
